@@ -106,6 +106,10 @@ func scanReadOnly(c *core.Ctx) []ob {
 		if isCtorName(fd.Name.Name) || readonlyWriters[fkey] != "" {
 			return
 		}
+		// a helper that is only ever called (transitively) from constructors is part of construction
+		if fn, ok := info.Defs[fd.Name].(*types.Func); ok && constructionOnly(c.Program)[fn] {
+			return
+		}
 		nMeth++
 		aliases := localAliasesMode(info, fd, true)
 		for _, w := range collectWrites(info, fd.Body) {
@@ -201,4 +205,77 @@ func scanReadOnlyFixture(c *core.Ctx) []ob {
 	readonlyFields = map[string]string{"internal/lvfixture.Table.consts": "fixture"}
 	defer func() { readonlyFields = saved }()
 	return scanReadOnly(c)
+}
+
+
+// constructionOnly: functions all of whose (static) callers are constructors, documented construction steps, or
+// themselves construction-only. Extracting part of a constructor into a helper does not make the helper a mutator.
+var constructionOnlyCache = map[*core.Program]map[*types.Func]bool{}
+
+func constructionOnly(p *core.Program) map[*types.Func]bool {
+	if m, ok := constructionOnlyCache[p]; ok {
+		return m
+	}
+	callers := map[*types.Func]map[*types.Func]bool{}
+	ctor := map[*types.Func]bool{}
+	all := map[*types.Func]bool{}
+	p.FuncDecls(func(pk *packages.Package, file *ast.File, fd *ast.FuncDecl) {
+		if fd.Body == nil || fileIsTestSupport(p, fd.Pos()) || inExamples(pk) {
+			return
+		}
+		f, _ := pk.TypesInfo.Defs[fd.Name].(*types.Func)
+		if f == nil {
+			return
+		}
+		all[f] = true
+		if isCtorName(fd.Name.Name) || readonlyWriters[core.FuncKey(pk, fd)] != "" {
+			ctor[f] = true
+		}
+		ast.Inspect(fd.Body, func(x ast.Node) bool {
+			if call, ok := x.(*ast.CallExpr); ok {
+				if g := calleeFunc(pk.TypesInfo, call); g != nil {
+					g = funcOrigin(g)
+					if callers[g] == nil {
+						callers[g] = map[*types.Func]bool{}
+					}
+					callers[g][f] = true
+				}
+			}
+			// a method value or function reference escapes: anything may call it
+			if id, ok := x.(*ast.Ident); ok {
+				if g, ok := pk.TypesInfo.Uses[id].(*types.Func); ok {
+					g = funcOrigin(g)
+					if callers[g] == nil {
+						callers[g] = map[*types.Func]bool{}
+					}
+				}
+			}
+			return true
+		})
+	})
+	res := map[*types.Func]bool{}
+	for changed := true; changed; {
+		changed = false
+		for f := range all {
+			if res[f] || ctor[f] || f.Exported() {
+				continue
+			}
+			cs := callers[f]
+			if len(cs) == 0 {
+				continue
+			}
+			ok := true
+			for g := range cs {
+				if !ctor[g] && !res[g] {
+					ok = false
+				}
+			}
+			if ok {
+				res[f] = true
+				changed = true
+			}
+		}
+	}
+	constructionOnlyCache[p] = res
+	return res
 }
